@@ -15,7 +15,8 @@ open EventLog
 
 /-- The sources (regenerated from `/repo` on every run) still have the shape the model
 transcribes: the names tested for, the terminal statuses, the events table, and the
-statement skeletons of the ten functions. -/
+statement skeletons of the nine store / resolution functions, the cursor part of
+`_stream_events` and its two frame formats. -/
 theorem C16_source_shape :
     Gen.EventLog.terminalName = "StopEvent" ∧
     Gen.EventLog.internalName = "InternalDispatchEvent" ∧
@@ -138,7 +139,7 @@ theorem C16_source_shape :
       "        yield (v4.sequence, v5)",
       "return v3()"
     ] ∧
-    Gen.EventLog.apiStream = [
+    Gen.EventLog.apiCursor = [
       "if request.query_params.get('after_sequence', 'now').lower() == 'now':",
       "    v0: int | None = None",
       "else:",
@@ -154,37 +155,10 @@ theorem C16_source_shape :
       "        except ValueError:",
       "            pass",
       "if await self._resolve_event_stream(request.path_params['handler_id'], after_sequence=v0, include_internal=request.query_params.get('include_internal', 'false').lower() == 'true', include_qualified_name=request.query_params.get('include_qualified_name', 'true').lower() == 'true') is None:",
-      "    raise HTTPException(detail='Handler is completed', status_code=204)",
-      "async def v2():",
-      "    v3 = object()",
-      "    v4: asyncio.Queue[tuple[int, EventEnvelopeWithMetadata] | object] = asyncio.Queue()",
-      "    async def v5():",
-      "        async for v6 in await self._resolve_event_stream(request.path_params['handler_id'], after_sequence=v0, include_internal=request.query_params.get('include_internal', 'false').lower() == 'true', include_qualified_name=request.query_params.get('include_qualified_name', 'true').lower() == 'true'):",
-      "            await v4.put(v6)",
-      "        await v4.put(v3)",
-      "    v7 = asyncio.ensure_future(v5())",
-      "    try:",
-      "        while True:",
-      "            try:",
-      "                v6 = await asyncio.wait_for(v4.get(), timeout=self._sse_heartbeat_interval if request.query_params.get('sse', 'true').lower() == 'true' else None)",
-      "            except asyncio.TimeoutError:",
-      "                yield ': heartbeat\\n\\n'",
-      "                await asyncio.sleep(0)",
-      "                continue",
-      "            if v6 is v3:",
-      "                break",
-      "            v8, v9 = cast(tuple[int, EventEnvelopeWithMetadata], v6)",
-      "            v10 = v9.model_dump_json()",
-      "            if request.query_params.get('sse', 'true').lower() == 'true':",
-      "                yield f'id: {v8}\\ndata: {v10}\\n\\n'",
-      "            else:",
-      "                yield f'{v10}\\n'",
-      "            await asyncio.sleep(0)",
-      "    finally:",
-      "        v7.cancel()",
-      "return StreamingResponse(v2(), media_type='text/event-stream' if request.query_params.get('sse', 'true').lower() == 'true' else 'application/x-ndjson')"
-    ] :=
-  ⟨rfl, rfl, rfl, rfl, rfl, rfl, rfl, rfl, rfl, rfl, rfl, rfl, rfl, rfl⟩
+      "    raise HTTPException(detail='Handler is completed', status_code=204)"
+    ] ∧
+    Gen.EventLog.apiFrames = ["id: {0}\ndata: {1}\n\n", "{0}\n"] :=
+  ⟨rfl, rfl, rfl, rfl, rfl, rfl, rfl, rfl, rfl, rfl, rfl, rfl, rfl, rfl, rfl⟩
 
 /-- a concrete interleaving used by the non-vacuity examples: two stored events, a
 subscriber from the beginning that is slow (an append lands while it is suspended
